@@ -557,6 +557,7 @@ fn ab_spec(tok: &[u8; 3], orc: &[u8; 3]) -> WorldSpec {
         asset_tag: 0,
         op_state: 1,
         permissionless_bad_debt: false,
+        staked: None,
     };
     WorldSpec {
         banks: vec![
